@@ -44,7 +44,7 @@ ALLOWED_AXIOMS = {
 HYGIENE_RE = re.compile(
     r'\b(Admitted|admit|give_up|Axiom|Axioms|Parameter|Parameters|Conjecture|Conjectures|'
     r'Unset\s+Guard\w*|bypass_check|Unset\s+Positivity\w*|Unset\s+Universe\w*|type-in-type|impredicative-set|'
-    r'Admit\s+Obligations|native_compute)\b')
+    r'Admit\s+Obligations|native_compute|Extract\s+Constant|Extract\s+Inductive|Extract\s+Inlined|ExtrOcamlNatInt|ExtrOcamlZInt|ExtrOcamlNatBigInt|ExtrOcamlZBigInt)\b')
 
 
 def pin_env():
